@@ -48,7 +48,7 @@ func hbMask(id int, mask uint, idx int) *GenomeSpec {
 
 // (members 0b101 and 0b010 interleave in their tails: genes of one on both sides of an unmatched gene of the other)
 func c08Family(n int) []*GenomeSpec {
-	f := []*GenomeSpec{hbMask(0, 0b000, 0), hbMask(1, 0b001, 0), hbMask(2, 0b010, 0), hbMask(3, 0b111, 0), hbMask(4, 0b101, 5), hbMask(5, 0b000, 1), hbMask(6, 0b011, 3), hbMask(7, 0b110, 2)}
+	f := []*GenomeSpec{hbMask(0, 0b000, 0), hbMask(1, 0b001, 0), hbMask(2, 0b010, 0), hbMask(3, 0b111, 0), hbMask(4, 0b101, 5), hbMask(5, 0b000, 1), hbMask(6, 0b011, 3), hbMask(7, 0b100, 2)}
 	// one member that differs from member 0 only in mutation numbers (small distance)
 	f[5].Genes[0].Mut += 0.375
 	if n > len(f) {
